@@ -8,6 +8,15 @@ CHECKS = {
          "All interleavings of validator claims (ahead, behind, conflicting, repeated) and block boundaries up to the stated depth are executed on the real msg server and EndBlocker; applied-list, Accepted flags, observed nonce and minted balance are checked after every tally.",
          "3 validators, 1 chain, deposit events; scripted staking table; bounds in evidence", "3 C03"),
 }
+BR = "explicit-state BFS over the closed bridge system (real keepers + reference ledgers for the external chains), transition and state oracles"
+CHECKS.update({
+ "C01": ("model_checking", BR, "Every history of sends, cancels, batch requests, deposits (hub-bound and cross-chain, with and without fee), relayer executions, external height jumps, expiry and cold-storage proposals up to the depth bound is executed on the real keepers; after every operation supply + in-flight value is compared with the custody ledger in exact rationals, and user balance gains are matched against what was locked or refundable for that user.", "external chains are reference ledgers written from Hub2.sol / the Minter multisig rule; claims built as the orchestrator and connector build them; bounds in evidence", "3 C01"),
+ "C02": ("model_checking", "explicit-state BFS per validator power vector over the real msg server and EndBlocker; quorum recomputed with exact integers at every acceptance", "All vote orders by validator accounts, orchestrators, a stranger and an unbonded validator, conflicting claims, power changes / unbonding between vote and tally, over 12 power distributions (totals that make 66*total/100 truncate, exact 50% ties, just-under-66% splits).", "scripted staking table; deposit events only", "3 C02"),
+ "C04": ("model_checking", BR, "A registry of every accepted transfer is reconciled with the real pool and batch indexes after every operation and at both block phases: unique ids, exactly one location while pending, terminal only through an applied execution event of the owning batch or a refund, status agrees with location.", "same world as C01; bounds in evidence", "3 C04"),
+ "C10": ("model_checking", BR, "Every batch is inspected in the state in which it was created (permissionless requests on any pool, automatic batching): non-empty, <=100, own chain and token only, fee multiset equals the reference top-k selection of that token's pool, nonces gap-free, outgoing sequence numbers unique and never beyond the counter. Token ids include the Minter prefix pair 1 / 12.", "bounds in evidence; batch cap 100 exercised in the thorough tier bulk seed", "3 C10"),
+ "C12": ("model_checking", BR, "Cancel by sender / other user / wrong chain / unknown / batched / repeated id and expiry at timeout-5, timeout, timeout+1 seconds, for hub-originated and foreign-originated transfers with 6-decimals external token: success conditions, exact refund of the recorded amount+fee+commission, right party, removal, status.", "C12 alphabet has no hub-bound deposits so that EndBlock balance changes are refunds only", "3 C12"),
+ "C13": ("model_checking", BR, "For every batch that leaves the store the cause is recomputed: applied execution event of exactly that batch, observed (stored) external height >= timeout on a non-Minter chain, or a later same-token batch executed on ethereum/bsc; executions must release exactly the older same-token batches.", "3 chains x 2 tokens; external chain accepts executions per Hub2.sol rules", "3 C13"),
+})
 PENDING = {i: "check not built yet in this session (planned, see DESIGN.md section 3)" for i in ALL if i not in CHECKS}
 m = {
  "version": 1,
